@@ -13,7 +13,7 @@ if [ "$1" = "-e" ]; then
 else
   (cd $D/repo && patch -p1 --no-backup-if-mismatch < "$1") || { echo "patch failed"; rm -rf $D; exit 3; }
 fi
-GSV_REPO=$D/repo GSV_VERIF=$D/verif /verif/gsv/gsv check $ID ${TIER:+--tier $TIER} | grep -v '^ok  '
+GSV_REPO=$D/repo GSV_VERIF=$D/verif ${GSV_BIN:-/verif/gsv/gsv} check $ID ${TIER:+--tier $TIER} | grep -v '^ok  '
 rc=${PIPESTATUS[0]}
 rm -rf $D
 echo "exit=$rc"
